@@ -16,6 +16,7 @@
 #include "ccl/ops/RSOperations.h"
 #include "ccl/api/RSFormJA.h"
 #include <set>
+#include "ccl/tools/JSON.h"
 #include <map>
 #ifndef PART
 #define PART 1
@@ -70,12 +71,27 @@ static void checkStructure(const OSSchema& oss) {
   sym_assert(done.size() == all.size(), "parent-relation-acyclic");
 }
 
+// the parent relation equals the reference model (parents as a set; children are its inverse)
+static void checkParents(const OSSchema& oss, const std::map<PictID, std::set<PictID>>& ref) {
+  for (const auto& pict : oss) {
+    const auto ps = oss.Graph().ParentsOf(pict.uid);
+    const std::set<PictID> got(ps.begin(), ps.end());
+    const auto it = ref.find(pict.uid);
+    sym_assert(got == (it == ref.end() ? std::set<PictID>{} : it->second), "parents-are-the-stated-ones");
+    std::set<PictID> wantChildren;
+    for (const auto& [child, parents] : ref) if (parents.count(pict.uid)) wantChildren.insert(child);
+    const auto cs = oss.Graph().ChildrenOf(pict.uid);
+    sym_assert(std::set<PictID>(cs.begin(), cs.end()) == wantChildren, "children-are-the-inverse-of-parents");
+  }
+}
+
 extern "C" void harness_main() {
   Environment::Instance().SetSourceManager(std::make_unique<FakeSourceManager>());
   {
   OSSchema oss;
 #if PART == 1
   std::vector<PictID> ids;     // every id ever issued (erased ones stay as "foreign" arguments)
+  std::map<PictID, std::set<PictID>> parentsRef;     // reference model of the parent relation
   auto arg = [&](const char* name) -> PictID {
     const int k = pick((int)ids.size() + 1, name);
     return k < (int)ids.size() ? ids[(size_t)k] : PictID{4242};
@@ -88,7 +104,7 @@ extern "C" void harness_main() {
       const auto* res = oss.InsertOperation(p, q);
       const bool valid = oss.Contains(p) && oss.Contains(q) && p != q;
       if (!valid) sym_assert(res == nullptr, "invalid-operation-refused");
-      if (res != nullptr) { ids.push_back(res->uid); sym_reach("operation-inserted"); }
+      if (res != nullptr) { ids.push_back(res->uid); parentsRef[res->uid] = {p, q}; sym_reach("operation-inserted"); }
       break;
     }
     case 2: {
@@ -98,15 +114,68 @@ extern "C" void harness_main() {
       const bool ok = oss.Erase(p);
       sym_assert(ok == leaf, "only-leaves-can-be-erased");
       sym_assert(oss.size() == before - (ok ? 1 : 0), "erase-size");
-      if (ok) { sym_assert(!oss.Contains(p) && oss.Src()(p) == nullptr && !oss.Grid()(p).has_value() && oss.Ops()(p) == nullptr, "erased-gone-from-all-tables"); sym_reach("erased"); }
+      if (ok) { sym_assert(!oss.Contains(p) && oss.Src()(p) == nullptr && !oss.Grid()(p).has_value() && oss.Ops()(p) == nullptr, "erased-gone-from-all-tables"); parentsRef.erase(p); sym_reach("erased"); }
       break;
     }
     case 3: { const PictID p = arg("connect"); (void)oss.Src().ConnectPict2Src(p, manager().CreateNewRS()); break; }
     default: { const PictID p = arg("alias"); oss.SetPictAlias(p, pick(2, "alias-text") ? "a" : "b"); break; }
     }
     checkStructure(oss);
+    checkParents(oss, parentsRef);
   }
   sym_reach("structure");
+#elif PART == 3
+  // ---- a document whose items and connections are listed in an arbitrary order (any order is a valid document), loaded and
+  // then edited: the parent relation must be the one the document states, before and after erasures
+  std::map<PictID, std::set<PictID>> parentsRef;
+  std::vector<PictID> ids;
+  nlohmann::ordered_json doc;
+  {
+    OSSchema orig;
+    const PictID b1 = orig.InsertBase()->uid, b2 = orig.InsertBase()->uid;
+    const PictID o3 = orig.InsertOperation(b1, b2)->uid;
+    PictID o4 = 0;
+    switch (pick(3, "second-operation")) { case 0: o4 = orig.InsertOperation(b1, b2)->uid; parentsRef[o4] = {b1, b2}; break; case 1: o4 = orig.InsertOperation(b1, o3)->uid; parentsRef[o4] = {b1, o3}; break; default: o4 = orig.InsertOperation(o3, b2)->uid; parentsRef[o4] = {o3, b2}; break; }
+    parentsRef[o3] = {b1, b2};
+    ids = {b1, b2, o3, o4};
+    if (sym_bool("third-operation")) { const PictID o5 = orig.InsertOperation(o3, o4)->uid; parentsRef[o5] = {o3, o4}; ids.push_back(o5); }
+    doc = orig;
+  }
+  for (const char* key : {"connections"
+#ifdef PERMUTE_ITEMS
+    , "items"
+#endif
+    }) {          // symbolic permutation (selection sort by symbolic picks)
+    auto& list = doc[key];
+    const size_t n = list.size();
+    for (size_t i = 0; i + 1 < n; ++i) {
+      const size_t j = i + (size_t)pick((int)(n - i), key);
+      if (j != i) std::swap(list[i], list[j]);
+    }
+  }
+  // precondition of the graph facet: rows are created at the first mention of a pictogram in the connection list and the
+  // execution order is the row order, so an operation must be first mentioned after the operations it depends on (the
+  // library's own documents satisfy this; base pictograms may appear anywhere)
+  {
+    std::vector<PictID> mention;
+    auto first = [&](PictID x) { for (size_t i = 0; i < mention.size(); ++i) if (mention[i] == x) return i; return mention.size(); };
+    for (const auto& c : doc["connections"]) for (int side = 0; side < 2; ++side) { const PictID x = c[(size_t)side].get<PictID>(); if (first(x) == mention.size()) mention.push_back(x); }
+    for (const auto& [child, parents] : parentsRef) for (const auto parent : parents) if (parentsRef.count(parent) && first(parent) > first(child)) sym_end_path();
+  }
+  doc.get_to(oss);
+  checkStructure(oss);
+  checkParents(oss, parentsRef);
+  for (int step = 0; step < K; ++step) {
+    const int k = pick((int)ids.size(), "erase");
+    const PictID p = ids[(size_t)k];
+    const bool leaf = oss.Contains(p) && oss.Graph().ChildrenOf(p).empty();
+    const bool ok = oss.Erase(p);
+    sym_assert(ok == leaf, "only-leaves-can-be-erased");
+    if (ok) { parentsRef.erase(p); sym_reach("erased"); }
+    checkStructure(oss);
+    checkParents(oss, parentsRef);
+  }
+  sym_reach("loaded");
 #else
   // ---- topology
   const int topology = pick(3, "topology");       // 0 single, 1 chain, 2 diamond
